@@ -121,8 +121,8 @@ def lastPhysical (ph : List Phys) (n : Nat) : Option String :=
   | none => none
 
 /-- the plan is a valid file: no number twice in a section, every in-use entry points at an object
-    with that number and generation, every compressed entry names a slot of an object stream that
-    holds that number.  The property speaks about valid histories only. -/
+    with that number and generation, every compressed entry names a slot of a (resolvable) object
+    stream that holds that number.  The property speaks about valid histories only. -/
 def nodupNums : List Nat → Bool
   | [] => true
   | x :: r => !r.contains x && nodupNums r
@@ -138,13 +138,12 @@ def wfPlan (chain : List Sect) (ph : List Phys) : Bool :=
          | some p => p.num = n && p.gen = gen
          | none => false)
       | .comp stm idx =>
-        ph.any fun p => p.num = stm &&
-          (match p.body with
-           | .objstm items =>
-             (match items[idx]? with
-              | some (m, _) => m = n
-              | none => false) && nodupNums (items.map (·.1))
-           | _ => false)
+        (match specResolve chain ph (ph.length + 2) stm 0 with
+         | .stream (some items) =>
+           (match items[idx]? with
+            | some (m, _) => m = n
+            | none => false) && nodupNums (items.map (·.1))
+         | _ => false)
 
 def dedup (xs : List String) : List String :=
   xs.foldl (fun acc x => if acc.contains x then acc else acc ++ [x]) []
